@@ -10,5 +10,21 @@ cp /repo/go.sum go.sum 2>/dev/null || true
 # serialise concurrent builds (several checks may start at once)
 exec 9>/verif/.build/build.lock
 flock 9
-/verif/overlays/gen_groupmutex.sh >/dev/null
-$GO build -tags verif -overlay /verif/.build/overlay/overlay.json -o /verif/.build/check ${CHECK_MAIN:-./cmd/check}
+/verif/overlays/gen_groupmutex.sh >/dev/null || echo "build: O-groupmutex overlay not generated; building without it" >&2
+if ! $GO build -tags verif -overlay /verif/.build/overlay/overlay.json -o /verif/.build/check ${CHECK_MAIN:-./cmd/check} 2>/verif/.build/build.err; then
+  # a changed group_mutex.go may not compile against the sync shim: retry with the file as it is
+  # (only C17's interleaving search needs the shim; it reports a harness error without it)
+  if grep -q group_mutex /verif/.build/build.err; then
+    echo "build: retrying without the O-groupmutex overlay entry" >&2
+    python3 - <<'PY'
+import json
+p="/verif/.build/overlay/overlay.json"
+o=json.load(open(p))
+for k in [k for k in o["Replace"] if k.endswith("group_mutex/group_mutex.go")]: o["Replace"].pop(k)
+json.dump(o,open(p,"w"),indent=1)
+PY
+    $GO build -tags verif -overlay /verif/.build/overlay/overlay.json -o /verif/.build/check ${CHECK_MAIN:-./cmd/check}
+  else
+    cat /verif/.build/build.err >&2; exit 1
+  fi
+fi
